@@ -288,8 +288,11 @@ def run_all(hs, jobs=None, on_done=None, timeout_scale=1.0):
 PLAYBACK_RE = re.compile(r"```\s*\n(.*?)```", re.S)
 
 
-def concrete_playback(h, target_dir, timeout=900):
-    """re-run a failing harness with concrete playback; returns list of generated unit tests (source)."""
+def concrete_playback(h, target_dir, timeout=900, base_time=None):
+    """re-run a failing harness with concrete playback; returns list of generated unit tests (source).
+    The playback run repeats the verification with trace generation: its time limit scales with the time the harness took."""
+    if base_time:
+        timeout = max(timeout, int(6 * base_time) + 300)
     out, rc, to, dt = run_proc(
         kani_cmd(h, target_dir, ["-Z", "concrete-playback", "--concrete-playback=print"]),
         C.KANI_CRATE, timeout, h.mem_gb)
@@ -298,6 +301,8 @@ def concrete_playback(h, target_dir, timeout=900):
         body = m.group(1)
         if "kani_concrete_playback" in body:
             tests.append(body.replace("\r", ""))
+    if to:
+        out += f"\n[concrete playback timed out after {timeout} s]"
     return tests, out
 
 
